@@ -130,6 +130,11 @@ func genXML(t *tape.Tape, o GenOpts) *World {
 		target = "/root/rec[F1 >= 0]"
 	} else if sh.SkipValue != "" {
 		target = "/root/rec[F0 != '" + sh.SkipValue + "']"
+		if useAttr && t.Bool("xml.attrfilter") {
+			// the same verdict from the attribute, which is known at the start tag already
+			target = "/root/rec[@a0 != '" + sh.SkipValue + "']"
+			w.SetTag("xml.attribute-filter", "1")
+		}
 	}
 	decls["FINAL_OUTPUT"].(D)["xpath"] = target
 	pretty := t.Weighted("xml.pretty", 2, 1, 1)
@@ -178,6 +183,9 @@ func genXML(t *tape.Tape, o GenOpts) *World {
 	}
 	w.Suffix += "</root>"
 	drawRecs(t, w, sh, o)
+	if MaybeScalarOutput(t, decls, m, o) {
+		w.SetTag("scalar-output", "1")
+	}
 	w.Schema = BuildSchema("xml", enc, nil, decls)
 	w.UsesJS, w.Ext = js || w.UsesJS, ext
 	w.Name = fmt.Sprintf("gen:xml(fields=%d,items=%d,recs=%d)", sh.NFields, sh.NItemFields, len(w.LRecs))
@@ -250,6 +258,9 @@ func genJSON(t *tape.Tape, o GenOpts) *World {
 	}
 	w.Suffix = "]}"
 	drawRecs(t, w, sh, o)
+	if MaybeScalarOutput(t, decls, m, o) {
+		w.SetTag("scalar-output", "1")
+	}
 	w.Schema = BuildSchema("json", enc, nil, decls)
 	w.UsesJS, w.Ext = js || w.UsesJS, ext
 	w.Name = fmt.Sprintf("gen:json(fields=%d,items=%d,recs=%d)", sh.NFields, sh.NItemFields, len(w.LRecs))
